@@ -346,6 +346,65 @@ func runC13Server(c *ev.Case, ctx *lib.Ctx, variant int) {
 	}
 }
 
+// runC13Concurrent: K handshaken connections share one state machine; each
+// pipelines DWRs with its own identifiers; every DWA must carry the
+// identifiers of the request it answers (the race detector watches the rest).
+func runC13Concurrent(c *ev.Case, ctx *lib.Ctx, K, per int) {
+	settings := &sm.Settings{OriginHost: "srv.local", OriginRealm: "realm.local", VendorID: 13, ProductName: "verif",
+		HostIPAddresses: []datatype.Address{datatype.Address([]byte{192, 0, 2, 1})}}
+	machine := sm.New(settings)
+	ln := memnet.NewListener()
+	srv := &diam.Server{Handler: machine, Dict: ctx.Parser}
+	go srv.Serve(ln)
+	conns := make([]*memnet.Conn, K)
+	for i := range conns {
+		conns[i] = memnet.NewConn()
+		conns[i].Remote = memnet.Addr{Net: "tcp", Str: fmt.Sprintf("10.0.0.%d:5", i+1)}
+		ln.Offer(conns[i])
+		conns[i].Feed(peer.StdCER(uint32(i+1), uint32(i+1), 4))
+	}
+	synctest.Wait()
+	defer func() {
+		for _, mc := range conns {
+			mc.FeedEOF()
+		}
+		ln.Close()
+		synctest.Wait()
+	}()
+	// all connections send their bursts at the same moment, with different flags
+	for i, mc := range conns {
+		var burst []byte
+		for k := 0; k < per; k++ {
+			id := uint32(i+1)<<20 | uint32(k)
+			b := peer.DWR(id, ^id)
+			if (i+k)%2 == 1 {
+				b[4] |= 0x40
+			}
+			burst = append(burst, b...)
+		}
+		mc.Feed(burst)
+	}
+	synctest.Wait()
+	for i, mc := range conns {
+		msgs, rest := peer.SplitMessages(mc.Written())
+		if len(rest) != 0 || len(msgs) != per+1 {
+			c.Fail(ev.Sig{"op": "dwa-count", "role": "server-concurrent"}, nil, nil, "connection %d: %d messages written for 1 CER + %d DWRs", i, len(msgs), per)
+			return
+		}
+		for k, m := range msgs[1:] {
+			id := uint32(i+1)<<20 | uint32(k)
+			fl := uint8(0x80)
+			if (i+k)%2 == 1 {
+				fl |= 0x40
+			}
+			if !checkAnswer(c, "DWA (several connections at once)", refcodec.Header{Version: 1, Flags: fl, Code: 280, HopByHop: id, EndToEnd: ^id}, m, 2001, true) {
+				return
+			}
+		}
+		c.Event("dwas_checked", per)
+	}
+}
+
 func TestC13(t *testing.T) {
 	rec := ev.Open(t, "C13")
 	defer rec.Close()
@@ -383,6 +442,14 @@ func TestC13(t *testing.T) {
 		leak := runBubbleWD(t, rec, c, 30*time.Second, func() { runC13Client(c, ctx, sc) })
 		if leak != "" && !c.Failed() {
 			c.Fail(ev.Sig{"op": "bubble-leak", "pattern": aNames[sc.pattern], "schedule": sNames[sc.schedule]}, nil, nil, "goroutines left blocked after the scenario: %s; %s", leak, sc.String())
+		}
+	})
+	rec.Suite("server-dwr-concurrent", rec.N(40, 2000), func(c *ev.Case) {
+		K := 2 + c.I%5
+		c.Class("server-dwr-concurrent/K=%d", K)
+		leak := runBubbleWD(t, rec, c, 60*time.Second, func() { runC13Concurrent(c, ctx, K, 40) })
+		if leak != "" && !c.Failed() {
+			c.Fail(ev.Sig{"op": "bubble-leak", "role": "server"}, nil, nil, "goroutines left blocked after the scenario: %s", leak)
 		}
 	})
 	rec.Suite("server-dwr", rec.N(64, 2000), func(c *ev.Case) {
